@@ -86,7 +86,7 @@ pub fn var_reuse_cfg(uni: &Universe) -> CorpusCfg {
     seeds.extend(qgen::enumerate(sm, &[qgen::skeleton()], 1, &cfg_e).into_iter().skip(1).flatten());
     let mut cfg = CorpusCfg::new(2);
     cfg.seeds = seeds;
-    cfg.gen = GenCfg { allow: Some(vec!["Pf", "Pv"]), wide_filters: true, naming_devs: false, ..Default::default() };
+    cfg.gen = GenCfg { allow: Some(vec!["Pf", "Fcf", "Pv"]), wide_filters: true, naming_devs: false, ..Default::default() };
     cfg
 }
 
